@@ -114,6 +114,9 @@ func validateConfig(c *TransportConfig) error {
 			return errors.New("transport group total count must be equal to the number of transports")
 		}
 	}
+	if _, ok := c.TransportMap[c.InitialTransportID]; !ok {
+		return errors.Errorf("initial transport ID %q is not in the transport map", c.InitialTransportID)
+	}
 
 	return nil
 }
@@ -159,7 +162,10 @@ func (m *Transport) transportIDLoop() {
 	defer m.logger.Infof(m.ctx, "Stopping transport ID loop")
 	for id := range ch.ReadOrDone(m.ctx, m.transportIDCh) {
 		m.mu.Lock()
-		if m.currentTransportID != id {
+		if _, ok := m.transportMap[id]; !ok {
+			// a scheduler may name a transport that is not a member (e.g. an unmapped NIC yields ""): keep the current one
+			m.logger.Warnf(m.ctx, "Ignoring unknown transport ID %q", id)
+		} else if m.currentTransportID != id {
 			m.logger.Infof(m.ctx, "Switching transport to %s", id)
 			m.currentTransportID = id
 		}
